@@ -250,6 +250,17 @@ def load_known(pid):
     return [e for e in data.get('entries', []) if e.get('property') == pid]
 
 
+_LINE_BREAK = __import__('re').compile(r'\r\n|\r|\n')
+
+
+def plines(text):
+    """lines as the Python parser counts them (str.splitlines also breaks at form feeds, \x1c-\x1e, \x85, \u2028 ...)"""
+    out = _LINE_BREAK.split(text)
+    if len(out) > 1 and not out[-1]:
+        out.pop()
+    return out if text else []
+
+
 def supp_crash(e):
     """(signature, detail) when exception e was raised inside the code under test (a frame of <REPO>/supp), else None.
     A semantic check that gets no answer at all for an in-domain input reports that as a violation of its property
@@ -440,14 +451,24 @@ class Found(Exception):
         self.detail = detail
 
 
-def minimise_lines(src, test, max_steps=300):
+def minimise_lines(src, test, max_steps=300, budget_s=45):
     """Line-level ddmin of a program text. test(candidate) -> True if the failure (same signature) persists.
     Also tries to drop a compound-statement header and dedent its block."""
-    lines = src.splitlines()
+    lines = plines(src)
     steps = [0]
+    try:
+        if not test('\n'.join(lines) + '\n'):
+            return src          # the failure depends on the exact line ends: leave the text as it is
+    except Exception:
+        return src
+
+    t_end = time.time() + budget_s
 
     def ok(cand):
         steps[0] += 1
+        if time.time() > t_end:
+            steps[0] = max_steps        # out of time: keep what has been reached (minimisation is a convenience, never a verdict)
+            return False
         if not cand:
             return False
         try:
@@ -499,6 +520,8 @@ def hyp_search(shard, prop, strategy, seed, max_examples, shrink=True, max_round
     from hypothesis import given, seed as hseed
     shard.excluded = getattr(shard, 'excluded', set())
     t_start = time.time()
+    if budget_s is None:
+        budget_s = 150          # no further search round is started later than this (a budget hit is never a violation)
     for rnd in range(max_rounds):
         if budget_s is not None and rnd and time.time() - t_start > budget_s:
             shard.count('search_rounds_cut_by_time_budget')
